@@ -183,4 +183,13 @@ example : ∃ a, genMV C02Sem.cxW vvtyEx vExM = .ok a ∧ VMsl.typeOf C02Sem.M2.
   refine ⟨_, rfl, ?_⟩
   exact gen_sem_msl_vec_expr agreeV C02Sem.worlds2 vExM _ (.vec .int 2) rfl (by decide) (by decide)
 
+/-- **negation witness** (known finding *metal-cast-not-allowed*): a cast of a vector to a one-component vector type is
+emitted as a cast to the *scalar* name without the `.x` selection (`try_implicit_truncate` only looks for `Scalar(_)`):
+`(int1)v` with `v : int3` becomes `(int)v`, which has no type in Metal (no vector → scalar conversion) -/
+theorem narrowing_to_vec1_is_not_metal :
+    genMV C02Sem.cxW vvtyEx (.cast (.vec .int 1) (.vvar 1)) = .ok (.cast "int" (.ident "ll")) ∧
+    VMsl.typeOf C02Sem.M2.msig envV (.cast "int" (.ident "ll")) = none ∧
+    VIr.typeOf C02Sem.W2.sig C02Sem.cxW.vty vvtyEx (.cast (.vec .int 1) (.vvar 1)) = some (.vec .int 1) :=
+  ⟨rfl, by decide, by decide⟩
+
 end RsslVerif.Thm.C02Vec
